@@ -945,6 +945,173 @@ def run_history_case(ctx, drv, case):
     return ok
 
 
+def tree_with_max_level(r, a, b, L, extra):
+    """dyadic refinement tree whose deepest level is exactly L: one random path down to level L plus `extra` random
+    refinements of leaves above level L"""
+    pts = [(a, 0), (b, 0)]
+    leaves = []
+    lo, hi = a, b
+    for l in range(1, L + 1):
+        m = (lo + hi) / 2
+        pts.append((m, l))
+        if r.random() < 0.5:
+            leaves.append((m, hi, l))
+            hi = m
+        else:
+            leaves.append((lo, m, l))
+            lo = m
+    leaves.append((lo, hi, L))
+    for _ in range(extra):
+        cand = [i for i in range(len(leaves)) if leaves[i][2] < L]
+        if not cand:
+            break
+        lo, hi, l = leaves.pop(r.choice(cand))
+        m = (lo + hi) / 2
+        pts.append((m, l + 1))
+        leaves += [(lo, m, l + 1), (m, hi, l + 1)]
+    pts.sort()
+    return [q for q, _ in pts], [l for _, l in pts]
+
+
+def gen_siblings_case(r, thorough):
+    """TWO grid objects alive at the same time with EQUAL level vectors (global grids: the key of `surplus_values`;
+    local grids: equal area and level vector), different family / order / function / box / tree"""
+    is_global = r.random() < 0.8
+    dim = r.choice([1, 2, 2])
+    cases = []
+    if is_global:
+        L = [r.randint(2, 4) for _ in range(dim)]
+        for _ in range(2):
+            fam = r.choice(GLOBAL)
+            p = r.choice([1, 2, 3, 5]) if "Lagrange" in fam else r.choice([1, 3, 5])
+            a = [r.choice([0, 0, -1, -3]) for _ in range(dim)]
+            b = [a[d] + r.choice([1, 2, 8]) for d in range(dim)]
+            points, levels = [], []
+            for d in range(dim):
+                xs, ls = tree_with_max_level(r, float(a[d]), float(b[d]), L[d], r.randint(0, 5))
+                points.append([fs(x) for x in xs])
+                levels.append([int(l) for l in ls])
+            cases.append({"kind": "grid", "family": fam, "p": p, "boundary": r.random() < 0.8, "modified": False,
+                          "a": [fs(x) for x in a], "b": [fs(x) for x in b], "points": points, "levels": levels,
+                          "tseed": r.randrange(1 << 30), "fkind": "table", "outlen": r.choice([1, 2, 3])})
+        if r.random() < 0.3:      # identical point counts: a foreign surplus array then fits silently
+            cases[1]["points"], cases[1]["levels"] = cases[0]["points"], cases[0]["levels"]
+            cases[1]["a"], cases[1]["b"], cases[1]["boundary"] = cases[0]["a"], cases[0]["b"], cases[0]["boundary"]
+            cases[1]["outlen"] = cases[0]["outlen"]
+    else:
+        a = [r.choice([0, -1]) for _ in range(dim)]
+        b = [a[d] + r.choice([1, 2]) for d in range(dim)]
+        lv = [r.randint(1, 3) for _ in range(dim)]
+        kk = r.choice([1, 2, 4])
+        start = [a[d] + r.randrange(kk) * (b[d] - a[d]) / kk for d in range(dim)]
+        end = [start[d] + (b[d] - a[d]) / kk for d in range(dim)]
+        ol = r.choice([1, 2, 3])
+        for _ in range(2):
+            fam = r.choice(LOCAL)
+            p = r.choice([1, 2, 3, 5]) if "Lagrange" in fam else r.choice([1, 3, 5])
+            cases.append({"kind": "grid", "family": fam, "p": p, "boundary": True, "modified": False,
+                          "a": [fs(x) for x in a], "b": [fs(x) for x in b], "start": [fs(x) for x in start],
+                          "end": [fs(x) for x in end], "lv": lv, "tseed": r.randrange(1 << 30), "fkind": "table", "outlen": ol})
+    return {"kind": "siblings", "A": cases[0], "B": cases[1], "tseed2": r.randrange(1 << 30)}
+
+
+def run_siblings_case(ctx, drv, case):
+    """A integrate, B integrate, A interpolate, B interpolate, A integrate another function, B interpolate, A interpolate;
+    every interpolation must return the table of ITS OWN object's last integration (and agree with a fresh object)"""
+    from sparseSpACE import Grid as _G  # noqa: F401
+    from sparseSpACE.ComponentGridInfo import ComponentGridInfo
+    tags = {"familyA": case["A"]["family"], "familyB": case["B"]["family"],
+            "global": case["A"]["family"] in GLOBAL, "dim": len(case["A"]["a"])}
+
+    class Obj:
+        pass
+
+    def setup(sub):
+        o = Obj()
+        o.sub = sub
+        o.g, a, b = build_grid(sub)
+        o.dim = len(sub["a"])
+        if sub["family"] in GLOBAL:
+            gp = [[float(Fraction(t)) for t in xs] for xs in sub["points"]]
+            gl = [list(ls) for ls in sub["levels"]]
+            o.g.set_grid(gp, gl)
+            o.lv = [max(ls) for ls in gl]
+            o.start, o.end = a, b
+            cgi = ComponentGridInfo(o.lv, 1)
+            o.interp = lambda pts: o.g.interpolate(pts, cgi)
+        else:
+            o.lv = list(sub["lv"])
+            o.start = np.array([float(Fraction(t)) for t in sub["start"]])
+            o.end = np.array([float(Fraction(t)) for t in sub["end"]])
+            o.g.setCurrentArea(o.start, o.end, o.lv)
+            o.interp = lambda pts: o.g.interpolate(pts, o.start, o.end, o.lv)
+        o.nodes = [tuple(float(x) for x in pt) for pt in o.g.getPoints()]
+        rr = random.Random(sub["tseed"] ^ 0x5bd1)
+        o.off = [tuple(dy(rr, float(o.start[d]), float(o.end[d]), 64) for d in range(o.dim)) for _ in range(3)]
+        return o
+
+    def integrate(o, tseed):
+        fn = table_function(dict(o.sub, tseed=tseed), o.nodes)
+        o.table = np.array([fn(c) for c in o.nodes], dtype=float).reshape(len(o.nodes), o.sub["outlen"])
+        o.g.integrate(make_function(fn, o.sub["outlen"]), o.lv, o.start, o.end)
+        # what a fresh object of the same kind returns off the nodes for the same table
+        f = setup(o.sub)
+        f.g.integrate(make_function(fn, o.sub["outlen"]), f.lv, f.start, f.end)
+        o.fresh_off = np.array(f.interp(o.off), dtype=float) if o.nodes else None
+        num_points = [len(o.g.get_coordinates_dim(d)) for d in range(o.dim)]
+        cp = 1.0
+        for d in range(o.dim):
+            xs = o.g.get_coordinates_dim(d)
+            if num_points[d] > 1:
+                M = np.array([[o.g.get_basis(d, j)(xs[i]) for j in range(num_points[d])] for i in range(num_points[d])], dtype=float)
+                cp *= min(float(np.linalg.cond(M)), 1e16)
+        o.relax = max(1.0, 8 * 2.2e-16 * cp / NODE_TOL)
+
+    def observe(o, who, step):
+        if not o.nodes:
+            return True
+        scale = max(1.0, float(np.max(np.abs(o.table))))
+        vals = np.array(o.interp(o.nodes), dtype=float)
+        if vals.shape != o.table.shape or not np.max(np.abs(vals - o.table)) <= NODE_TOL * o.relax * scale:
+            err = float(np.max(np.abs(vals - o.table))) if vals.shape == o.table.shape else None
+            ctx.violation("sibling-roundtrip", dict(tags, observed=who, step=step, kind="nodal-mismatch"), case,
+                          {"max_error": err, "shape": list(vals.shape), "expected_shape": list(o.table.shape)})
+            return False
+        offv = np.array(o.interp(o.off), dtype=float)
+        if not np.max(np.abs(offv - o.fresh_off)) <= 1e-8 * o.relax * max(scale, float(np.max(np.abs(o.fresh_off)))):
+            ctx.violation("sibling-roundtrip", dict(tags, observed=who, step=step, kind="differs-from-fresh-object"), case,
+                          {"point": o.off[int(np.argmax(np.max(np.abs(offv - o.fresh_off), axis=1)))],
+                           "max_diff": float(np.max(np.abs(offv - o.fresh_off)))})
+            return False
+        return True
+
+    step = "setup"
+    try:
+        A, B = setup(case["A"]), setup(case["B"])
+        step = "A.integrate"
+        integrate(A, case["A"]["tseed"])
+        step = "B.integrate"
+        integrate(B, case["B"]["tseed"])
+        ok = True
+        for k, (o, who) in enumerate([(A, "A"), (B, "B")]):
+            step = "%s.interpolate after both integrated" % who
+            ok = observe(o, who, step) and ok
+        step = "A.integrate again"
+        integrate(A, case["tseed2"])
+        for o, who in [(B, "B"), (A, "A")]:
+            step = "%s.interpolate after A integrated again" % who
+            ok = observe(o, who, step) and ok
+    except Exception as e:
+        # local boundary-off grids etc. are not generated here: an exception is a failure of the round trip
+        ctx.violation("sibling-roundtrip", dict(tags, step=step, kind="exception"), case,
+                      {"exception": exc_kind(e), "message": str(e)[:200],
+                       "where": traceback.format_exc().strip().split("\n")[-3].strip()[:160]})
+        return False
+    ctx.count("siblings_global" if tags["global"] else "siblings_local")
+    ctx.count("siblings_same_family" if tags["familyA"] == tags["familyB"] else "siblings_cross_family")
+    return ok
+
+
 def gen_local_case(r, thorough):
     fam = r.choice(LOCAL)
     p = r.choice([1, 2, 3, 5]) if fam == "LagrangeGrid" else r.choice([1, 3, 5])
@@ -1066,6 +1233,8 @@ def run_case(ctx, drv, case):
         return run_basis_case(ctx, drv, case)
     if case["kind"] == "history":
         return run_history_case(ctx, drv, case)
+    if case["kind"] == "siblings":
+        return run_siblings_case(ctx, drv, case)
     return run_grid_case(ctx, drv, case)
 
 
@@ -1083,7 +1252,9 @@ def run(ctx):
                 "basis >= 2 knots; (d) object histories: ONE grid object (hence one HierarchizationLSG inside its integrator) used for 2-3 successive "
                 "grids of equal point counts (15-20 in dimension 0: QR branch) but different shape (graded left / right / middle / random; local: "
                 "successive sub-areas with equal level vector), then the first one again, every step with the full oracle, the model and a fresh "
-                "HierarchizationLSG")
+                "HierarchizationLSG; (e) siblings: two grid objects alive (both subclasses and the same one; global: equal level vectors, different "
+                "tree / box / order / function; local: equal area and level vector), A integrate, B integrate, A and B interpolate, A integrate another "
+                "function, B and A interpolate -- each must return its own table and agree with a fresh object")
     ctx.assumptions = [
         "numpy.linalg.solve / qr + solve_triangular are modelled as one exact rational solve (Gaussian elimination, proved sound)",
         "that the hierarchical bases span the polynomials of degree <= min(p, complete level + 1) resp. the not-a-knot B-spline degree is validated by the oracle, not proved",
@@ -1141,10 +1312,12 @@ def run(ctx):
     while ng < min_grid or left(budget) > 0:
         if ng % 8 == 3:
             case = gen_history_case(r, thorough)      # object histories (at least 18 in quick: min_grid / 8)
+        elif ng % 8 == 7:
+            case = gen_siblings_case(r, thorough)     # two objects alive, equal level vectors, interleaved use
         else:
             case = gen_local_case(r, thorough) if ng % 2 == 0 else gen_global_case(r, thorough)
         guarded(case)
-        small = {kk: (vv if kk not in ("points", "levels", "steps") else [len(x) for x in vv]) for kk, vv in case.items()}
+        small = {kk: (vv if kk not in ("points", "levels", "steps", "A", "B") else (len(vv) if not isinstance(vv, dict) else vv.get("family"))) for kk, vv in case.items()}
         ctx.case(canon(case), nontrivial=True, sample=small if ng < 3 else None)
         ng += 1
         if (len(ctx.violations) + len(ctx.corr_breaks)) >= 40:
